@@ -43,6 +43,16 @@ Theorem C29_detect_agree_with_length_check : forall bs,
 Proof. intros bs. split; [apply go_py_agree|apply go_js15_agree]. Qed.
 Print Assumptions C29_detect_agree_with_length_check.
 
+(* "so a non-envelope value is passed through unchanged by each": the first step of
+   every SDK's resolver hands a rejected value back as it is, and (on the finding's
+   complement) all three take the same decision. *)
+Theorem C29_passthrough_agree : forall bs, 15 <= zlen bs ->
+  pass_through go_is_envelope bs = pass_through py_is_envelope bs /\
+  pass_through go_is_envelope bs = pass_through js_is_envelope bs /\
+  (forall p, pass_through go_is_envelope bs = Some p -> p = bs).
+Proof. exact pass_through_agree. Qed.
+Print Assumptions C29_passthrough_agree.
+
 Theorem C29_js_decode_search : forall m bs, m <> [] -> (forall c, In c m -> c < 128) ->
   contains m (js_decode bs) = contains m bs.
 Proof. exact js_decode_search_any. Qed.
